@@ -19,6 +19,9 @@ func c18Scenarios(tier string) []*natsmc.Scenario {
 		{Name: "pre-response", Scripts: [][]string{{"pre:60000", "reply:A"}, {"pre:60000", "pre:60000", "reply:B", "reply:C"}}},
 		{Name: "no-responders", Scripts: [][]string{{"503", "reply:A"}, {"reply:B", "503"}}},
 		{Name: "silence", Scripts: [][]string{{"pre:1"}, {}}},
+		// a second pre-response replaces the timer of the first: the reply after the first deadline counts
+		{Name: "pre-response-replaced", Scripts: [][]string{{"pre:150", "pre:60000", "wait:400", "reply:A"}}},
+		{Name: "pre-response-elapsed", Scripts: [][]string{{"pre:60000", "pre:100", "wait:300", "reply:A"}}},
 		{Name: "events", Scripts: [][]string{{"reply:A"}}, Events: 3, Unsub: true},
 		{Name: "disconnect", Scripts: [][]string{{"reply:A"}, {"pre:60000"}}, Events: 1, Drop: true},
 		{Name: "close", Scripts: [][]string{{"reply:A"}, {"reply:B"}}, Close: true},
@@ -141,14 +144,29 @@ func sweepLength(api string, l int) string {
 	if api == "request" {
 		done := make(chan error, 1)
 		cl.SendRequest(subj, []byte(`{"params":null}`), func(_ string, _ []byte, err error) { done <- err })
-		select {
-		case err := <-done:
-			if err == mq.ErrSubjectTooLong {
-				refused = true
-			} else {
+		// either the adapter refuses (callback with subjectTooLong) or the PUB reaches the server
+		dl := time.Now().Add(5 * time.Second)
+	wait:
+		for {
+			select {
+			case err := <-done:
+				if err == mq.ErrSubjectTooLong {
+					refused = true
+					break wait
+				}
 				return fmt.Sprintf("request completed at once with %v", err)
+			default:
 			}
-		case <-time.After(3 * time.Millisecond):
+			pubs, _, errs := srv.Snapshot()
+			for _, p := range pubs {
+				if p.Subject == subj {
+					break wait
+				}
+			}
+			if len(errs) > 0 || srv.Closed() || time.Now().After(dl) {
+				break wait
+			}
+			time.Sleep(50 * time.Microsecond)
 		}
 	} else {
 		_, err := cl.Subscribe(subj, func(string, []byte, error) {})
